@@ -814,8 +814,78 @@ func c03Getters(c *core.Ctx, pkt *packet.Packet, af *packet.AdaptationField, m *
 				}
 			}
 		}
+		// two packets read alternately (PCR interval measurement, comparing two packets): what a
+		// getter returned for this packet is still this packet's value after the same getter has
+		// been used on another packet - nothing was set in between
+		{
+			q := c03Other()
+			type heldRes struct {
+				name string
+				res  []byte
+				was  []byte
+			}
+			var held []heldRes
+			hold := func(name string, b []byte, err error) {
+				if err == nil {
+					held = append(held, heldRes{name, b, append([]byte(nil), b...)})
+				}
+			}
+			b, err := adaptationfield.PCR(pkt)
+			hold("adaptationfield.PCR", b, err)
+			b, err = adaptationfield.OPCR(pkt)
+			hold("adaptationfield.OPCR", b, err)
+			b, err = adaptationfield.TransportPrivateData(pkt)
+			hold("adaptationfield.TransportPrivateData", b, err)
+			b, err = adaptationfield.EncoderBoundaryPoint(pkt)
+			hold("adaptationfield.EncoderBoundaryPoint", b, err)
+			b, err = af.TransportPrivateData()
+			hold("TransportPrivateData", b, err)
+			b, err = af.AdaptationFieldExtension()
+			hold("AdaptationFieldExtension", b, err)
+			adaptationfield.PCR(q)
+			adaptationfield.OPCR(q)
+			adaptationfield.TransportPrivateData(q)
+			adaptationfield.EncoderBoundaryPoint(q)
+			adaptationfield.SpliceCountdown(q)
+			if qa, qerr := q.AdaptationField(); qerr == nil && qa != nil {
+				qa.PCR()
+				qa.OPCR()
+				qa.TransportPrivateData()
+				qa.AdaptationFieldExtension()
+				qa.SpliceCountdown()
+			}
+			for _, h := range held {
+				if !bytes.Equal(h.res, h.was) {
+					c.Fail("getter", "getter:"+h.name+":result_changed_by_reading_another_packet", fmt.Sprintf("%x", h.res), fmt.Sprintf("%x", h.was))
+					ok = false
+					return
+				}
+			}
+			if len(held) > 0 {
+				c.Probe("results_held_while_another_packet_is_read")
+			}
+		}
 	})
 	return okc && ok
+}
+
+// c03Other is a second, unrelated packet with every optional adaptation field present.
+func c03Other() *packet.Packet {
+	var q packet.Packet
+	for i := range q {
+		q[i] = byte(0xA0 + i%7)
+	}
+	copy(q[:], []byte{0x47, 0x01, 0x23, 0x35, 60, 0x1F,
+		0x11, 0x12, 0x13, 0x14, 0xFE, 0x15, // PCR
+		0x21, 0x22, 0x23, 0x24, 0xFE, 0x25, // OPCR
+		0x05,             // splice countdown
+		3, 'X', 'Y', 'Z', // private data
+		2, 0x1F, 0x77, // extension
+	})
+	for i := 26; i < 65; i++ {
+		q[i] = 0xFF
+	}
+	return &q
 }
 
 func (c03) Shrink(script interface{}) []interface{} {
